@@ -22,6 +22,20 @@ PROPS = {
     },
 }
 
+def _sched(pid, title, text, note, budget=None, extra=None):
+    PROPS[pid] = {"title": title, "level": "model_checking",
+                  "technique": "stateless model checking of the real engine goroutines under a controlled scheduler (deviation-bounded DFS over schedules, select choices, timer firings and injected faults, with trace-equivalence pruning)",
+                  "parts": [{"engine": "sched", "family": pid}] + (extra or []),
+                  "budget": budget or {"quick": 100, "thorough": 1500}, "design_ref": "§5 " + pid + ", §2.2",
+                  "text": text, "note": note, "assumptions": COMMON_SCHED}
+
+_sched("C07", "acknowledgements respect acceptance order",
+       "every interleaving (within the deviation bound) of two ingest callers, a Flush caller, the engine workers and a task that releases a gated store call; at every nil acknowledgement and every nil Flush return the batches accepted earlier (by the global observation log) must already be answered and, when answered nil, committed",
+       "2 non-empty batches (or one empty), flush triggers by row limit / explicit Flush / shutdown, gate at CreateFile, Close or Update; ordering of the acknowledgement of an empty batch is not asserted (documented as immediate)")
+_sched("C08", "Stop honours its contract",
+       "every interleaving (within the deviation bound) of Stop with 2-3 producers (one making two calls), wedged or ctx-honouring stores, buffered and abandoned unbuffered done channels, and Stop contexts {Background, deadline as a free timer event, already expired, a custom Context implementation}; oracles: monotone ErrEngineStopped, completeness when Stop returns nil, return within the quiescent closure of the deadline event, no CreateFile/Update started after Stop returned its deadline error, every buffered waiter holds exactly one answer",
+       "virtual time: 'roughly by the deadline' is decided as 'without any further timer'; the horizon equals the deadline")
+
 COMMON_SEQ = [
     "bounded alphabets: verdicts hold for the enumerated rows, conditions, trees, layouts and configurations only",
     "the reference walker (encoding/json token stream) is the trusted statement of the documented search semantics; rows with empty object keys are decided by the unpruned-layout differential only",
